@@ -342,4 +342,220 @@ theorem guards_total_qBeta (K : Kernels ℝ) (p a b : ℝ) :
     have h4 : p ≠ 1 := ne_of_lt h1
     simp [qBeta, h1', h2, h3, h4]
 
+/-- `qNorm(p)`: the error value -9999 **iff** `p < 1e-20 ∨ p > 1 - 1e-20` (no kernel contract is
+needed: inside the domain the Odeh–Evans value lies in `[-12, 12]`) -/
+theorem guards_total_qNorm (p : ℝ) :
+    (qNorm p = -9999 ↔ qNormSentinel p = true) ∧
+    (qNormSentinel p = true ↔ p < qEps ∨ 1 - qEps < p) := by
+  refine ⟨⟨?_, ?_⟩, qNormSentinel_iff p⟩
+  · intro h
+    by_contra hs
+    exact qNorm_ne_sentinel (by simpa using hs) h
+  · intro h
+    have : qP1 p < qEps := by simpa [qNormSentinel] using h
+    rw [qNorm_real, if_pos this]
+
+/-- `qNorm(p, μ, σ)` (repaired code): the error value itself outside the domain, the affine image
+of the standard quantile inside -/
+theorem guards_total_qNorm3 (p mu sigma : ℝ) :
+    (qNormSentinel p = true → qNorm3 p mu sigma = -9999) ∧
+    (qNormSentinel p = false → qNorm3 p mu sigma = qNorm p * sigma + mu) := by
+  have e : qNorm3 p mu sigma = if qNorm p = -9999 then qNorm p else qNorm p * sigma + mu := by
+    simp [qNorm3]
+  constructor
+  · intro h
+    have := (guards_total_qNorm p).1.mpr h
+    rw [e, if_pos this, this]
+  · intro h
+    rw [e, if_neg (qNorm_ne_sentinel h)]
+
+/-- the snapshot's `qNorm(p, μ, σ)` mapped the error value affinely: `qNorm(0, 5, 2) = -19993` -/
+theorem qNorm3Old_rescales_sentinel : qNorm3Old (0 : ℝ) 5 2 = -19993 := by
+  have h : qNorm (0 : ℝ) = -9999 :=
+    (guards_total_qNorm 0).1.mpr ((qNormSentinel_iff 0).mpr (Or.inl qEps_pos))
+  simp only [qNorm3Old, h]; norm_num
+
+/-- symmetry of the quantile inside the domain: the two halves use the same formula.  (Outside,
+both sides are the error value -9999, which is *not* antisymmetric.) -/
+theorem qnorm_reflect (p : ℝ) (h0 : qEps ≤ p) (hp : p < 1 / 2) : qNorm (1 - p) = -qNorm p := by
+  have h1 : ¬ (1 - p < 1 / 2) := by linarith
+  have e1 : qP1 (1 - p) = p := by rw [qP1_real, if_neg h1]; ring
+  have e2 : qP1 p = p := by rw [qP1_real, if_pos hp]
+  rw [qNorm_real, qNorm_real, e1, e2, if_neg h1, if_pos hp, if_neg (not_lt.mpr h0), if_neg (not_lt.mpr h0), neg_neg]
+
+
+/-! ## Wrapper identities -/
+
+/-- `pChisq x v = pGamma x (v/2) (1/2)` on the support -/
+theorem wrapper_pChisq (K : Kernels ℝ) (x v : ℝ) (hx : 0 ≤ x) :
+    pChisq K x v = pGamma K x (v / 2) (1 / 2) := by
+  have : ¬ (x < 0) := not_lt.mpr hx
+  simp [pChisq, this]
+
+/-- `qGamma p α β = qChisq p (2α) / (2β)` whenever `qChisq` did not report an error -/
+theorem wrapper_qGamma (K : Kernels ℝ) (p a b : ℝ) (h : 0 ≤ qChisq K p (2 * a)) :
+    qGamma K p a b = qChisq K p (2 * a) / (2 * b) := by
+  have : ¬ (qChisq K p (2 * a) < 0) := not_lt.mpr h
+  simp [qGamma, this]
+
+/-- affine forms of the normal -/
+theorem wrapper_pNorm3 (ex tr : ℝ → ℝ) (x mu sigma : ℝ) :
+    pNorm3 ex tr x mu sigma = pNorm ex tr ((x - mu) / sigma) := rfl
+
+theorem wrapper_qNorm3 (p mu sigma : ℝ) (h : qNormSentinel p = false) :
+    qNorm3 p mu sigma = qNorm p * sigma + mu := (guards_total_qNorm3 p mu sigma).2 h
+
+theorem wrapper_lnBeta (K : Kernels ℝ) (a b : ℝ) :
+    lnBeta K a b = K.lnGamma a + K.lnGamma b - K.lnGamma (a + b) := rfl
+
+theorem wrapper_pBeta (K : Kernels ℝ) (x a b : ℝ) : pBeta K x a b = incompleteBeta K x a b := rfl
+
+/-- the location-scale wrappers of the normal are mutually inverse exactly as far as the
+standard functions are: `pNorm (qNorm p μ σ) μ σ = pNorm (qNorm p)` for `σ ≠ 0` -/
+theorem normal_affine_inverts (ex tr : ℝ → ℝ) (p mu sigma : ℝ) (hs : sigma ≠ 0)
+    (h : qNormSentinel p = false) :
+    pNorm3 ex tr (qNorm3 p mu sigma) mu sigma = pNorm ex tr (qNorm p) := by
+  rw [wrapper_pNorm3, wrapper_qNorm3 p mu sigma h]
+  congr 1
+  field_simp
+  ring
+
+/-- **Relative inverse theorem.**  If the chi-square pair inverts on the domain of `qChisq`
+(the kernels' contract), so does the gamma pair, for every rate `β > 0`. -/
+theorem qGamma_inverts (K : Kernels ℝ)
+    (hinv : ∀ p v, qChisqSentinel p v = false → pChisq K (qChisq K p v) v = .val p)
+    (p a b : ℝ) (hb : 0 < b) (hp : qChisqSentinel p (2 * a) = false) :
+    pGamma K (qGamma K p a b) a b = .val p := by
+  have hI := hinv p (2 * a) hp
+  have hdom : ¬ (p < chLo ∨ chHi < p ∨ 2 * a ≤ 0) := by
+    rw [← qChisqSentinel_iff]; simp [hp]
+  push Not at hdom
+  have ha : 0 < a := by linarith [hdom.2.2]
+  -- the quantile is non-negative: otherwise pChisq would be 0 ≠ p
+  have hc : 0 ≤ qChisq K p (2 * a) := by
+    by_contra hneg
+    rw [(guards_total_pChisq K _ _).1 (not_le.mp hneg)] at hI
+    have : (0 : ℝ) = p := by injection hI
+    linarith [chLo_pos, hdom.1]
+  rw [wrapper_qGamma K p a b hc]
+  rw [wrapper_pChisq K _ _ hc] at hI
+  have h2a : 0 < 2 * a / 2 := by linarith
+  rw [(guards_total_pGamma K _ _ _).2.2.2 h2a (by norm_num)] at hI
+  rw [(guards_total_pGamma K _ _ _).2.2.2 ha (le_of_lt hb), ← hI]
+  have e1 : b * (qChisq K p (2 * a) / (2 * b)) = 1 / 2 * qChisq K p (2 * a) := by
+    field_simp
+  have e2 : 2 * a / 2 = a := by ring
+  rw [e1, e2]
+
+/-! ## Monotone kernels give monotone wrappers (`σ, β > 0`) -/
+
+theorem affine_monotone_pNorm3 (ex tr : ℝ → ℝ) (hmono : Monotone (pNorm ex tr)) (mu sigma : ℝ)
+    (hs : 0 < sigma) : Monotone (fun x => pNorm3 ex tr x mu sigma) := by
+  intro x y hxy
+  simp only [wrapper_pNorm3]
+  apply hmono
+  exact div_le_div_of_nonneg_right (by linarith) (le_of_lt hs)
+
+theorem affine_monotone_qNorm3 (mu sigma : ℝ) (hs : 0 < sigma) (p q : ℝ)
+    (hp : qNormSentinel p = false) (hq : qNormSentinel q = false)
+    (hmono : qNorm p ≤ qNorm q) : qNorm3 p mu sigma ≤ qNorm3 q mu sigma := by
+  rw [wrapper_qNorm3 p mu sigma hp, wrapper_qNorm3 q mu sigma hq]
+  have := mul_le_mul_of_nonneg_right hmono (le_of_lt hs)
+  linarith
+
+/-- `incompleteGamma` is non-decreasing on `x ≥ 0` when its kernel is non-decreasing and
+non-negative on `x > 0` (the value at 0 is the constant 0) -/
+theorem incompleteGamma_monotone (K : Kernels ℝ) (a g : ℝ) (ha : 0 < a)
+    (hpos : ∀ x, 0 < x → 0 ≤ K.igCore x a g)
+    (hmono : ∀ x y, 0 < x → x ≤ y → K.igCore x a g ≤ K.igCore y a g)
+    (x y : ℝ) (hx : 0 ≤ x) (hxy : x ≤ y) :
+    incompleteGamma K x a g ≤ incompleteGamma K y a g := by
+  rcases eq_or_lt_of_le hx with h0 | h0
+  · rw [(guards_total_incompleteGamma K x a g).1 h0.symm]
+    rcases eq_or_lt_of_le (le_trans hx hxy) with h1 | h1
+    · rw [(guards_total_incompleteGamma K y a g).1 h1.symm]
+    · rw [(guards_total_incompleteGamma K y a g).2.2.1 h1 ha]; exact hpos y h1
+  · have hy : 0 < y := lt_of_lt_of_le h0 hxy
+    rw [(guards_total_incompleteGamma K x a g).2.2.1 h0 ha,
+      (guards_total_incompleteGamma K y a g).2.2.1 hy ha]
+    exact hmono x y h0 hxy
+
+/-- `pGamma(·, α, β)` is non-decreasing on `x ≥ 0` for `α > 0, β > 0` under the same contract -/
+theorem affine_monotone_pGamma (K : Kernels ℝ) (a b : ℝ) (ha : 0 < a) (hb : 0 < b)
+    (hpos : ∀ x, 0 < x → 0 ≤ K.igCore x a (K.lnGamma a))
+    (hmono : ∀ x y, 0 < x → x ≤ y → K.igCore x a (K.lnGamma a) ≤ K.igCore y a (K.lnGamma a))
+    (x y : ℝ) (hx : 0 ≤ x) (hxy : x ≤ y) :
+    ∃ u v, pGamma K x a b = .val u ∧ pGamma K y a b = .val v ∧ u ≤ v := by
+  refine ⟨_, _, (guards_total_pGamma K x a b).2.2.2 ha (le_of_lt hb),
+    (guards_total_pGamma K y a b).2.2.2 ha (le_of_lt hb), ?_⟩
+  exact incompleteGamma_monotone K a _ ha hpos hmono _ _ (mul_nonneg (le_of_lt hb) hx)
+    (mul_le_mul_of_nonneg_left hxy (le_of_lt hb))
+
+/-- `pChisq(·, v)` is non-decreasing on the whole line for `v > 0` (0 left of the support) -/
+theorem affine_monotone_pChisq (K : Kernels ℝ) (v : ℝ) (hv : 0 < v)
+    (hpos : ∀ x, 0 < x → 0 ≤ K.igCore x (v / 2) (K.lnGamma (v / 2)))
+    (hmono : ∀ x y, 0 < x → x ≤ y →
+      K.igCore x (v / 2) (K.lnGamma (v / 2)) ≤ K.igCore y (v / 2) (K.lnGamma (v / 2)))
+    (x y : ℝ) (hxy : x ≤ y) :
+    ∃ u w, pChisq K x v = .val u ∧ pChisq K y v = .val w ∧ u ≤ w := by
+  have hv2 : 0 < v / 2 := by linarith
+  by_cases hx : x < 0
+  · by_cases hy : y < 0
+    · exact ⟨0, 0, (guards_total_pChisq K x v).1 hx, (guards_total_pChisq K y v).1 hy, le_refl _⟩
+    · have hy' : 0 ≤ y := not_lt.mp hy
+      obtain ⟨u, w, h1, h2, _⟩ := affine_monotone_pGamma K (v / 2) (1 / 2) hv2 (by norm_num) hpos hmono
+        y y hy' (le_refl _)
+      refine ⟨0, w, (guards_total_pChisq K x v).1 hx, by rw [wrapper_pChisq K y v hy']; exact h2, ?_⟩
+      -- the value at y ≥ 0 is an incomplete gamma value, hence ≥ 0
+      rw [(guards_total_pGamma K y (v / 2) (1 / 2)).2.2.2 hv2 (by norm_num)] at h2
+      have hw : w = incompleteGamma K (1 / 2 * y) (v / 2) (K.lnGamma (v / 2)) := by injection h2 with h; exact h.symm
+      rw [hw]
+      have := incompleteGamma_monotone K (v / 2) _ hv2 hpos hmono 0 (1 / 2 * y) (le_refl _) (by positivity)
+      rwa [(guards_total_incompleteGamma K 0 _ _).1 rfl] at this
+  · have hx' : 0 ≤ x := not_lt.mp hx
+    have hy' : 0 ≤ y := le_trans hx' hxy
+    rw [wrapper_pChisq K x v hx', wrapper_pChisq K y v hy']
+    exact affine_monotone_pGamma K (v / 2) (1 / 2) hv2 (by norm_num) hpos hmono x y hx' hxy
+
+/-- `qGamma(·, α, β)` is non-decreasing on the domain of `qChisq` for `β > 0` when the AS91
+kernel is non-decreasing and non-negative -/
+theorem affine_monotone_qGamma (K : Kernels ℝ) (a b : ℝ) (hb : 0 < b)
+    (hpos : ∀ p, 0 ≤ K.qChisqCore p (2 * a))
+    (p q : ℝ) (hp : qChisqSentinel p (2 * a) = false) (hq : qChisqSentinel q (2 * a) = false)
+    (hmono : K.qChisqCore p (2 * a) ≤ K.qChisqCore q (2 * a)) :
+    qGamma K p a b ≤ qGamma K q a b := by
+  have e1 := qChisq_of_domain K p _ hp
+  have e2 := qChisq_of_domain K q _ hq
+  rw [wrapper_qGamma K p a b (by rw [e1]; exact hpos p), wrapper_qGamma K q a b (by rw [e2]; exact hpos q),
+    e1, e2]
+  exact div_le_div_of_nonneg_right hmono (by linarith)
+
+/-! ## Non-vacuity: kernels meeting the contracts used above exist -/
+
+/-- a toy kernel family: `igCore x = x`, `qChisqCore p = 2p` -/
+def toyK : Kernels ℝ where
+  lnGamma _ := 0
+  igCore x _ _ := x
+  qChisqCore p _ := 2 * p
+  ibCore x _ _ := x
+  qBetaCore p _ _ := .val p
+
+example (p a b : ℝ) (hb : 0 < b) (hp : qChisqSentinel p (2 * a) = false) :
+    pGamma toyK (qGamma toyK p a b) a b = .val p := by
+  apply qGamma_inverts toyK _ p a b hb hp
+  intro p v h
+  have hdom : ¬ (p < chLo ∨ chHi < p ∨ v ≤ 0) := by rw [← qChisqSentinel_iff]; simp [h]
+  push Not at hdom
+  have hp0 : 0 < p := lt_of_lt_of_le chLo_pos hdom.1
+  have hc : qChisq toyK p v = 2 * p := qChisq_of_domain toyK p v h
+  rw [hc, wrapper_pChisq toyK _ _ (by linarith),
+    (guards_total_pGamma toyK _ _ _).2.2.2 (by linarith [hdom.2.2]) (by norm_num),
+    (guards_total_incompleteGamma toyK _ _ _).2.2.1 (by linarith) (by linarith [hdom.2.2])]
+  simp [toyK]
+
+example : qChisqSentinel (1 / 2 : ℝ) (2 * 1) = false := by
+  have : ¬ ((1 / 2 : ℝ) < chLo ∨ chHi < (1 / 2 : ℝ) ∨ (2 * 1 : ℝ) ≤ 0) := by
+    rw [chLo_real, chHi_real]; norm_num
+  rw [← qChisqSentinel_iff] at this; simpa using this
+
 end Bpp.C08
